@@ -192,6 +192,9 @@ impl Scenario for C09 {
   fn name(&self) -> &'static str {
     "c09.des"
   }
+  fn weight(&self) -> usize {
+    5
+  }
   fn components(&self) -> (&'static [&'static str], &'static [&'static str]) {
     (
       &["ops/debounce.rs", "ops/throttle.rs", "ops/sample.rs + observable/interval.rs", "ops/buffer.rs (time forms)", "scheduler.rs (OnceTask with delay, RepeatTask, TaskHandle cancel)"],
@@ -440,9 +443,205 @@ impl Scenario for C09 {
 pub fn check_def() -> PropertyCheck {
   PropertyCheck {
     id: "C09",
-    scenarios: vec![Box::new(C09)],
+    scenarios: vec![Box::new(C09), Box::new(C09Threads)],
     runs: (300_000, 30_000_000),
     rule: "case = operator (debounce, throttle_time leading|tailing|all, sample(interval), buffer_with_time, buffer_with_count_and_time) x window {2,5}ms x timed script of <=10 source events with gaps shorter than / equal to / longer than the window and a terminal, each exact tie with a timer deadline run in a chosen order; executor runs as timers fall due; non-trivial = >=2 source events; distinct = distinct (case, behaviour) hashes",
     assumptions: vec!["exact ties between a source event and a timer deadline may be resolved either way (every assignment is tried)"],
+  }
+}
+
+// ------------------------------------------------------------------ threads
+
+use crate::threadsim::*;
+use std::sync::atomic::Ordering::SeqCst;
+
+#[derive(Clone, Debug, Serialize, Deserialize, PartialEq)]
+pub enum EOp {
+  Emit,
+  /// let virtual time pass (timers fire, pool workers run their tasks concurrently)
+  Sleep(u8),
+}
+
+#[derive(Clone, Debug, Serialize, Deserialize)]
+pub struct TCase {
+  op: ROp,
+  w: u32,
+  script: Vec<EOp>,
+  complete: bool,
+  workers: usize,
+  sched: SchedSpec,
+}
+
+/// Thread arm: the source emits on a caller thread while the operator's timer
+/// tasks run on pool workers; only the universal half of the property is
+/// judged (no timing expectations).
+pub struct C09Threads;
+impl Scenario for C09Threads {
+  fn name(&self) -> &'static str {
+    "c09.threads"
+  }
+  fn weight(&self) -> usize {
+    1
+  }
+  fn components(&self) -> (&'static [&'static str], &'static [&'static str]) {
+    (&["debounce / throttle_time / sample / buffer_with_time / buffer_with_count_and_time with their timer tasks on pool workers racing the emitting thread"], &["OS thread scheduling (baton), pool workers, timer, clock (sim)"])
+  }
+  fn generate(&self, rng: &mut Rng, _tier: Tier) -> Value {
+    let op = match rng.below(7) {
+      0 => ROp::Debounce,
+      1 => ROp::ThrottleAll,
+      2 => ROp::ThrottleTailing,
+      3 => ROp::Sample,
+      4 | 5 => ROp::BufferTime,
+      _ => ROp::BufferCountTime(rng.range(1, 3)),
+    };
+    let w = *rng.pick(&[1u32, 2]);
+    let mut script = Vec::new();
+    for _ in 0..rng.range(2, 6) {
+      script.push(if rng.chance(2, 3) { EOp::Emit } else { EOp::Sleep(*rng.pick(&[1u8, 2, 3])) });
+    }
+    let strategy = match rng.below(3) {
+      0 => Strategy::Random,
+      1 => Strategy::Seq { den: 3 },
+      _ => Strategy::Pct { d: rng.range(1, 3) as u8, k: 60 },
+    };
+    serde_json::to_value(TCase { op, w, script, complete: rng.chance(3, 4), workers: rng.range(1, 2), sched: SchedSpec::Seeded { seed: rng.next_u64(), strategy } }).unwrap()
+  }
+  fn run(&self, case: &Value) -> Result<Outcome, String> {
+    let case: TCase = serde_json::from_value(case.clone()).map_err(|e| e.to_string())?;
+    if case.w == 0 || case.w > 20 || case.script.len() > 12 || case.workers == 0 || case.workers > 3 || matches!(case.op, ROp::BufferCountTime(0)) {
+      return Err("bad shape".into());
+    }
+    let shr = Shared::new();
+    let wd = World::with_shared(shr.clone());
+    let log = ProbeLog::new(true);
+    let p = Probe(log.clone());
+    let hot = SubjectThreads::<Val, E>::default();
+    let dur = Duration::from_millis(case.w as u64);
+    let ts = TSim::new(shr.clone(), &case.sched, 1, case.workers, 40_000);
+    let s = shared_sched();
+    let sub: Box<dyn std::any::Any + Send> = ts.with_pool(|| {
+      let src = hot.clone();
+      match case.op {
+        ROp::Debounce => Box::new(src.debounce(dur, s).actual_subscribe(p)) as Box<dyn std::any::Any + Send>,
+        ROp::ThrottleLeading => Box::new(src.throttle_time(dur, ThrottleEdge::leading(), s).actual_subscribe(p)),
+        ROp::ThrottleTailing => Box::new(src.throttle_time(dur, ThrottleEdge::tailing(), s).actual_subscribe(p)),
+        ROp::ThrottleAll => Box::new(src.throttle_time(dur, ThrottleEdge::all(), s).actual_subscribe(p)),
+        ROp::Sample => Box::new(src.sample_threads(observable::interval(dur, s).take(12).on_error_map(|_| 0)).actual_subscribe(p)),
+        ROp::BufferTime => Box::new(src.buffer_with_time(dur, s).map(Val::L).actual_subscribe(p)),
+        ROp::BufferCountTime(c) => Box::new(src.buffer_with_count_and_time(c, dur, s).map(Val::L).actual_subscribe(p)),
+      }
+    });
+    let emitted = std::sync::Arc::new(std::sync::Mutex::new(Vec::<i64>::new()));
+    let mut bodies: Vec<Body> = Vec::new();
+    {
+      let mut hot = hot.clone();
+      let script = case.script.clone();
+      let complete = case.complete;
+      let emitted = emitted.clone();
+      bodies.push(Box::new(move || {
+        let mut n = 0i64;
+        for op in &script {
+          match op {
+            EOp::Emit => {
+              n += 1;
+              emitted.lock().unwrap().push(n);
+              hot.next(Val::I(n));
+            }
+            EOp::Sleep(ms) => harness_sleep_ms(*ms as u64),
+          }
+          harness_yield("between-ops");
+        }
+        if complete {
+          hot.complete();
+        }
+      }));
+    }
+    let rep = ts.run(bodies);
+    let recs = log.records();
+    let got: Vec<Ev> = recs.iter().map(|r| r.ev.clone()).collect();
+    let src_items = emitted.lock().unwrap().clone();
+    let site = format!("{} (threads)", format!("{:?}", case.op).split('(').next().unwrap());
+    let mut violation = None;
+    if let Some(d) = &rep.deadlock {
+      violation = Some(Violation { rule: "c09.deadlock".into(), site: site.clone(), detail: d.clone() });
+    } else if rep.budget_overrun {
+      violation = Some(Violation { rule: "c09.livelock".into(), site: site.clone(), detail: "step budget exhausted".into() });
+    } else if let Some((t, m)) = rep.panics.first() {
+      violation = Some(Violation { rule: "c09.panic".into(), site: site.clone(), detail: format!("thread {} panicked: {}", t, m) });
+    } else if log.overlap.load(SeqCst) {
+      violation = Some(Violation { rule: "c09.overlap".into(), site: site.clone(), detail: "subscriber entered on two threads at once".into() });
+    } else if let Some(i) = grammar_violation(&got) {
+      violation = Some(Violation { rule: "c09.grammar".into(), site: site.clone(), detail: format!("event #{} after terminal: [{}]", i, fmt_trace(&got)) });
+    } else {
+      let mut flat: Vec<i64> = Vec::new();
+      for e in &got {
+        if let Ev::Next(v) = e {
+          if let Val::L(l) = v {
+            if l.is_empty() {
+              violation = Some(Violation { rule: "c09.empty-buffer".into(), site: site.clone(), detail: format!("[{}]", fmt_trace(&got)) });
+            }
+            if let ROp::BufferCountTime(c) = case.op {
+              if l.len() > c {
+                violation = Some(Violation { rule: "c09.buffer-over-count".into(), site: site.clone(), detail: format!("[{}]", fmt_trace(&got)) });
+              }
+            }
+          }
+          v.leaves(&mut flat);
+        }
+      }
+      if violation.is_none() {
+        let mut last = 0i64;
+        for x in &flat {
+          if !src_items.contains(x) {
+            violation = Some(Violation { rule: "c09.invented".into(), site: site.clone(), detail: format!("delivered {} which the source never produced: [{}]", x, fmt_trace(&got)) });
+            break;
+          }
+          if flat.iter().filter(|y| *y == x).count() > 1 {
+            violation = Some(Violation { rule: "c09.duplicate".into(), site: site.clone(), detail: format!("item {} delivered more than once: [{}]", x, fmt_trace(&got)) });
+            break;
+          }
+          if *x < last {
+            violation = Some(Violation { rule: "c09.reordered".into(), site: site.clone(), detail: format!("[{}]", fmt_trace(&got)) });
+            break;
+          }
+          last = *x;
+        }
+      }
+      let is_buffer = matches!(case.op, ROp::BufferTime | ROp::BufferCountTime(_));
+      if violation.is_none() && case.complete && !got.contains(&Ev::Complete) {
+        violation = Some(Violation { rule: "c09.completion-lost".into(), site: site.clone(), detail: format!("the source completed and every thread returned, the subscriber saw [{}]", fmt_trace(&got)) });
+      }
+      if violation.is_none() && is_buffer && case.complete && flat != src_items {
+        violation = Some(Violation {
+          rule: "c09.buffers-not-whole-source".into(),
+          site: site.clone(),
+          detail: format!("source emitted {:?} and completed; buffers [{}] do not concatenate to it", src_items, fmt_trace(&got)),
+        });
+      }
+    }
+    let mut resolved = case.clone();
+    resolved.sched = SchedSpec::Explicit(rep.decisions.clone());
+    let mut h = rep.trace_hash;
+    for r in &recs {
+      h = hash_mix(h, hash_str(&fmt_ev(&r.ev)) ^ (r.tid as u64) << 32);
+    }
+    let sim = shr.now();
+    let _ = std::panic::catch_unwind(std::panic::AssertUnwindSafe(|| {
+      drop(sub);
+      drop(hot);
+      drop(wd);
+    }));
+    Ok(Outcome {
+      violation,
+      trace_hash: h,
+      nontrivial: rep.multi_choice > 0,
+      sim_ns: sim,
+      steps: rep.steps,
+      faults: vec![("preemption_at_lock_point", rep.preemptions), ("lock_contention", rep.contentions)],
+      reach: vec![("try_lock_contention_observed", (rep.contentions > 0) as u64)],
+      resolved: Some(serde_json::to_value(resolved).unwrap()),
+      sample: format!("{} w={}ms script={:?} complete={} workers={} decisions={} => {}", site, case.w, case.script, case.complete, case.workers, rep.decisions.len(), recs.iter().map(|r| format!("{}@{}/t{}", fmt_ev(&r.ev), r.t / MS, r.tid)).collect::<Vec<_>>().join(" ")),
+    })
   }
 }
